@@ -100,6 +100,19 @@ CHECKS = {
         note=TB + ' The bisimulation premise (equal tracked state implies equal future outputs) is not proved for the three engines; '
                   'they are tied by the differential comparison.',
         design='§4 C06'),
+    'C15': dict(
+        technique='Coq proof of the saturating count arithmetic over arbitrarily nested REPEAT blocks + correspondence of every '
+                  'loop-aware query with an interpreter of the unrolled stream and of API-call histories under ASan',
+        text='Proof: add_saturate/mul_saturate exactly as written (mod 2^64 + test) equal min(.,2^64-1) and flat_count_operations over '
+             'any nesting equals min(exact unrolled count, 2^64-1) (counts_eq_unrolled_saturating). Tie H: the extracted model is '
+             'compared with the implementation for repeat counts up to 2^63; every loop-aware Circuit and DetectorErrorModel query '
+             '(counts, max lookback, compute_stats, final coordinate shift, final qubit coordinates incl. repeated qubits, detector '
+             'coordinates, total detector shift) against an interpreter executing the unrolled stream on random nested programs; '
+             'histories of 3-14 mutating API calls (+, +=, *, *=, insert, insert/append repeat block with tags, append text, slices, '
+             'copy, assign, clear, destroy, self operands) for circuits and models under ASan, comparing flattened streams.',
+        note=TB + ' Ownership of spans is checked on the real heap by ASan (no Coq ownership model); coordinate arithmetic is compared '
+                  'on small integers; the expected flattened text is canonicalised by the implementation\'s own parser.',
+        design='§4 C15'),
 }
 
 PENDING = 'check not yet built in this round (see DESIGN.md §7 phasing); the Coq model for it is planned, not claimed'
